@@ -5,9 +5,9 @@ from .. import env, coq, runner
 
 LEVEL = 'proof'
 META = dict(
-    text='Coq theorems over hand-written Gallina models of cirq/study/sweeps.py and cirq/study/resolver.py (sweep length = iteration length, indexing incl. negative indices, slicing, lexicographic Product, Zip prefix, ZipLongest repetition, Concat, Linspace endpoints over exact rationals; resolver value_of = substitution to a fixpoint then evaluation, composition, unrelated symbols untouched, flattening preserves values); the models are evaluated by vm_compute on the same generated inputs as the implementation on every run, and resolve-then-unitary / simulate_sweep / flatten are compared with numeric substitution on generated gates and circuits.',
-    note='Trusted: Coq kernel; the Python adapters in vf/checks/c10.py (building Cirq objects, printing exact rational literals, canonicalising outputs); sympy as the parser and printer of expressions; numpy float arithmetic is compared with exact rational arithmetic under a stated tolerance; the commute-with-unitary/simulation/flatten streams are differential tests against numeric substitution, not proofs.',
-    technique='Rocq/Coq proof over executable Gallina models + vm_compute correspondence against the implementation + differential streams',
+    text='Coq theorems over hand-written Gallina models, in the shape of the code, of cirq/study/sweeps.py (len = length of the iteration; sweep[i] incl. negative indices; slices = ListSweep of the positions range(n)[slice] via the dictionary walk of __getitem__; Product lexicographic with the last factor fastest; Zip shortest prefix; ZipLongest repeats last values; Concat appends; Linspace endpoints and spacing over exact rationals), of ParamResolver.value_of (fast paths for Add/Mul/Pow, slow path by repeated sympy substitution, recursion sentinel: every answer is the fixed point of simultaneous substitution, for every interpretation of the arithmetic; complete; a reported loop is real; recursive=False is one substitution; unrelated symbols untouched), of ParamResolver._resolve_parameters_ (composition law under a stated hypothesis, refuted without it) and of cirq.flatten (every flattened parameter keeps its value under the transformed assignment, for any naming function). The models are evaluated by vm_compute on the same generated inputs as the implementation on every run (sweeps: exact; expressions: exact rational arithmetic); resolve-then-unitary, two-stage resolution, sub-circuits, tags, simulate_sweep/run_sweep and flatten/flatten_with_sweep are compared with numbers substituted by sympy.',
+    note='Trusted: Coq kernel; the Python adapters in vf/checks/c10.py (building Cirq objects from generated trees, sympy <-> tree conversion, printing exact rational literals); sympy as parser, printer and reference algebra; CPython slice.indices/range transcribed into the model (checked against range(n)[slice] on every run). The commute-with-unitary/simulation/flatten streams and the wider expression classes (fractional powers, trigonometric functions, pi, complex values) are differential tests against sympy substitution, not proofs. Memoisation of value_of is not in the proved model (the run queries one resolver object repeatedly and compares with the memo-free model).',
+    technique='Rocq/Coq proof over executable Gallina models + vm_compute correspondence against the implementation + differential streams against sympy substitution',
 )
 
 KEYS = ['a', 'b', 'c', 'd', 'e', 'f', 'g', 'h']
@@ -1866,12 +1866,21 @@ def flatten_model_stream(ctx, cirq, n):
 
 def run(ctx):
     cirq = env.import_cirq()
-    ctx.rule = ('sweeps: random trees over Unit/Points/Linspace/ListSweep leaves and Product/Zip/ZipLongest/Concat nodes, nesting <= 3, empty and '
-                'single-point sweeps and constructor-rejected sweeps included; per sweep: len, keys, param_tuples, list(), to_resolvers, every index in '
-                '[-n-2, n+2), four random slices; non-trivial = composite with >= 2 assignments; distinct by sweep term')
-    ctx.assumptions += ['vf/checks/c10.py adapters building Cirq sweeps/expressions and canonicalising outputs',
-                        'Python float/int <-> exact rational (Fraction) <-> Coq Q literal printing',
-                        'Linspace values compared with tolerance 2^-40 (binary64 arithmetic in the code, exact rationals in the model)']
+    ctx.rule = ('sweep: random trees over Unit/Points/Linspace/ListSweep leaves and Product/Zip/ZipLongest/Concat nodes, nesting <= 3, empty, '
+                'single-point and constructor-rejected sweeps included; per sweep len, keys, param_tuples, list(), to_resolvers, every index in '
+                '[-n-2, n+2), four random slices (non-trivial = composite with >= 2 assignments). value_of: random dictionaries (numbers, aliases, '
+                'expressions of later symbols, self-maps, 12% with a cycle) and sympy trees of depth <= 5 over Add/Mul/Pow/Abs/Max/Min/floor/sign with '
+                'exact dyadic leaves, 2-4 queries on one resolver object, recursive and single-step, parameter_names/is_parameterized '
+                '(non-trivial = compound expression mentioning a bound symbol). compose: pairs of dictionaries, 25% re-introducing symbols. '
+                'flatten_model: tuples of expressions with repeated expressions and symbols named like generated names. value_of_float: '
+                'fractional powers, division, sin/cos/exp, pi, complex values against sympy substitution. gate_unitary: every parameterised gate '
+                'family, one-shot and two-stage resolution against the numerically built gate. circuit_unitary / simulate_sweep / run_sweep / flatten: '
+                '2-3 qubit circuits with tags, controlled operations, nested sub-circuits with and without param_resolver, unparameterised moments '
+                'and prefixes. distinct by canonical input')
+    ctx.assumptions += ['vf/checks/c10.py adapters building Cirq sweeps/expressions/gates/circuits and canonicalising outputs',
+                        'Python float/int <-> exact rational (Fraction) <-> Coq Q literal printing; sympy tree <-> model tree conversion',
+                        'sympy substitution as the reference for ordinary algebra (differential streams and the spec-level oracles)',
+                        'Linspace values compared with tolerance 2^-40, expression values with relative tolerance 1e-9, unitaries 1e-7, state vectors 1e-6']
     ctx.set_obligations(coq.compile_props('C10'))
     quick = ctx.tier == 'quick'
     sweep_stream(ctx, cirq, 400 if quick else 4000)
@@ -1886,13 +1895,29 @@ def run(ctx):
     flatten_stream(ctx, cirq, 40 if quick else 500)
 
 
+def eval_ns(cirq):
+    import sympy, numpy as np
+    ns = {k: getattr(sympy, k) for k in dir(sympy) if not k.startswith('_')}
+    ns.update(cirq=cirq, sympy=sympy, np=np, numpy=np)
+    return ns
+
+
+def load_entries(cirq, rows):
+    ns = eval_ns(cirq)
+    return [(k, eval(v['sympy'], ns) if isinstance(v, dict) else v) for k, v in rows]
+
+
 def replay(ctx, data):
+    """Re-run the single case of a replay file on the implementation; True iff the property holds on it."""
+    import sympy, numpy as np
     cirq = env.import_cirq()
     k = data.get('kind')
+    ns = eval_ns(cirq)
+    before = lambda: len(ctx.violations) + len(ctx.known_hits)
     if k == 'sweep':
         t = totuple(data['tree'])
         obs = observe_sweep(cirq, t, ctx.rng)
-        before = len(ctx.violations) + len(ctx.known_hits)
+        n0 = before()
         if obs is not None:
             if 'slice' in data:
                 sl = tuple(data['slice'])
@@ -1903,7 +1928,93 @@ def replay(ctx, data):
                 obs['slices'] = [(sl, got, 'ListSweep')]
             spec_sweep(ctx, cirq, t, obs, 0)
         print('sweep:', obs and repr(obs['sweep']), 'len', obs and obs['len'], 'tuples', obs and obs['tuples'][:8])
-        return len(ctx.violations) + len(ctx.known_hits) == before
+        return before() == n0
+    if k == 'value_of':
+        entries = load_entries(cirq, data['entries'])
+        e = eval(data['expr'], ns)
+        v = judge_value_of(cirq, entries, e, data.get('recursive', True))
+        print(f'ParamResolver({dict(entries)!r}).value_of({e}, recursive={data.get("recursive", True)}):', v or 'agrees with substitution')
+        return v is None
+    if k == 'value_of_seq':
+        entries = load_entries(cirq, data['entries'])
+        exprs = [eval(x, ns) for x in data['exprs']]
+        res = make_resolver(cirq, entries)
+        for q in exprs:
+            seq = impl_value_of(res, q, True)
+        fresh = impl_value_of(make_resolver(cirq, entries), exprs[-1], True)
+        print('after earlier queries:', seq[1:], 'fresh:', fresh[1:])
+        return seq[0] == fresh[0] and (seq[0] != 'val' or values_agree(seq[2], fresh[2], [{}]))
+    if k == 'names':
+        e = eval(data['expr'], ns)
+        return sorted(cirq.parameter_names(e)) == sorted(s.name for s in e.free_symbols) and cirq.is_parameterized(e)
+    if k == 'gate':
+        entries = load_entries(cirq, data['entries'])
+        p = {}
+        for name, v in data['params'].items():
+            v = eval(v, ns) if isinstance(v, str) and not name in ('fixed',) else v
+            if name.startswith('angles['):
+                p.setdefault('angles', []).append(v)
+            else:
+                p[name] = v
+        gs = _gates.G(data['fam'], p, data['shape'])
+        num = {}
+        for name, v in flat_params(gs).items():
+            if isinstance(v, sympy.Basic):
+                key = ('angles', int(name[7:-1])) if name.startswith('angles[') else name
+                num[key] = ref_number(entries, v)
+        sg, ng = build_gate(cirq, gs), build_gate(cirq, with_params(gs, num))
+        names_want = set().union(*[{s.name for s in v.free_symbols} for v in flat_params(gs).values() if isinstance(v, sympy.Basic)] or [set()])
+        print('parameter_names:', sorted(cirq.parameter_names(sg)), 'expected', sorted(names_want))
+        r = cirq.resolve_parameters(sg, dict(entries))
+        print('resolved:', repr(r), 'numeric twin:', repr(ng))
+        return set(cirq.parameter_names(sg)) == names_want and not cirq.is_parameterized(r) and mats_close(cirq.unitary(r), cirq.unitary(ng))
+    if k in ('circuit', 'flatten'):
+        entries = load_entries(cirq, data['entries'])
+        cs, cn = eval(data['circuit'], ns), eval(data['numeric'], ns)
+        q = sorted(cs.all_qubits() | cn.all_qubits())
+        if k == 'circuit':
+            r = cirq.resolve_parameters(cs, dict(entries))
+            print('still parameterized:', cirq.is_parameterized(r), sorted(cirq.parameter_names(r)))
+            return not cirq.is_parameterized(r) and mats_close(r.unitary(qubit_order=q), cn.unitary(qubit_order=q))
+        cf, em = cirq.flatten(cs)
+        rf = cirq.resolve_parameters(cf, em.transform_params(cirq.ParamResolver(dict(entries))))
+        print('expression map:', em, 'still parameterized:', cirq.is_parameterized(rf))
+        return not cirq.is_parameterized(rf) and ops_match(cirq, rf, cn, q)
+    if k in ('simulate_sweep', 'run_sweep'):
+        cs = eval(data['circuit'], ns)
+        sweep = build_sweep(cirq, totuple(data['tree']))
+        q = sorted(cs.all_qubits())
+        if k == 'simulate_sweep':
+            sim = cirq.Simulator(dtype=np.complex128)
+            res = sim.simulate_sweep(cs, sweep, qubit_order=q)
+            return len(res) == len(sweep) and all(
+                a.params == pr and mats_close(a.final_state_vector, sim.simulate(cirq.resolve_parameters(cs, pr), qubit_order=q).final_state_vector, 1e-6)
+                for a, pr in zip(res, sweep))
+        res = cirq.Simulator(seed=1).run_sweep(cs, sweep, repetitions=3)
+        return len(res) == len(sweep) and all(
+            a.params == pr and np.array_equal(a.measurements['m'], cirq.Simulator(seed=1).run(cirq.resolve_parameters(cs, pr), repetitions=3).measurements['m'])
+            for a, pr in zip(res, sweep))
+    if k == 'flatten_tuple':
+        tup = tuple(eval(x, ns) if isinstance(x, str) else x for x in data['exprs'])
+        flat, em = cirq.flatten(tup)
+        print('flattened:', flat, em)
+        seen = {}
+        for x, y in zip(tup, flat):
+            if isinstance(x, sympy.Basic) and (not isinstance(y, sympy.Symbol) or seen.setdefault(y, x) != x):
+                return False
+        return True
+    if k == 'compose':
+        r1, r2 = load_entries(cirq, data['r1']), load_entries(cirq, data['r2'])
+        comp = cirq.resolve_parameters(make_resolver(cirq, r1), make_resolver(cirq, r2))
+        print('composed:', comp)
+        xs = [eval(data['expr'], ns)] if 'expr' in data else [sympy.Symbol(k) for k, _ in r1 + r2]
+        ok = True
+        for x in xs:
+            seq = make_resolver(cirq, r2).value_of(make_resolver(cirq, r1).value_of(x))
+            one = comp.value_of(x)
+            print(f'{x}: sequential {seq!r}, composed {one!r}')
+            ok = ok and values_agree(one, seq, [{}]) and sympy.sympify(one).free_symbols == sympy.sympify(seq).free_symbols
+        return ok
     print('nothing to replay for kind', k)
     return False
 
